@@ -35,7 +35,7 @@ def lemmas(tier):
                                  "bytes, a non-empty strings block, truncation at every byte)" if dev else "consistent framing"),
                         bound="tags=%d, value words=%d, message <= 2 bytes, declared tape <= 6 words; uncompressed/unknown block types only" % (nt, nv),
                         expect_reach=["Z2.returned"]))
-    for T in ((0, 1, 2) if tier == "quick" else (0, 1, 2, 3, 4)):
+    for T in ((0, 1) if tier == "quick" else (0, 1, 2, 3, 4)):      # T6 (24 k paths, found F14) and larger: thorough tier (the quick pass with it did not finish within an hour on a loaded machine)
         ls.append(Lemma("Z5.deviation.T%d" % (T + 4), "verifHarness_Z5_Deviation", F, splits=[{"T": T}], split_depth="auto",
                         intr=ChunkIntrinsics, scale=SCALE, opts={"make_assume_max": 24},
                         desc="Deserialize on the tag stream of every well-formed tape of %d words (objects, arrays, strings, numbers, scalars, NOPs, nesting <= 2) with one "
